@@ -278,6 +278,36 @@ func (st *ccState) oracleRouting(v *vio) {
 	}
 	st.oracleRefusal(v)
 	st.checkStillReading(v)
+	st.checkErrors(v)
+}
+
+// checkErrors: a call fails only for a reason the history contains - nothing acceptable
+// arrived (no-response), its context ended, its id was in use, a WriteTo failed or the
+// client was closed. Any other error means something that should have been dropped
+// (an undecodable or foreign datagram) or an internal condition leaked into the call.
+func (st *ccState) checkErrors(v *vio) {
+	p := st.cfg.p
+	for _, c := range st.calls {
+		if !c.returned || c.err == nil {
+			continue
+		}
+		switch {
+		case p.IsNoResponse(c.err), p.IsInUse(c.err), st.hadWriteFailure(c):
+			continue
+		case isCtxErr(c.err) && c.spec.ck != ctxBackground:
+			continue
+		}
+		closed := false
+		for _, cl := range st.closeCalls {
+			if cl.invSeq < c.retSeq {
+				closed = true // writing to / waiting on a closed client: any error will do (T3 judges the waiting case)
+			}
+		}
+		if closed {
+			continue
+		}
+		v.add("R6-unexpected-error", "call %d (xid %x) failed with %q although its context had not ended, its id was free, no WriteTo had failed and the client was open: undecodable or foreign datagrams must be dropped without disturbing any call", c.id, c.spec.xid, c.err.Error())
+	}
 }
 
 // checkStillReading is the "dropped without disturbing any call" clause seen from
@@ -579,6 +609,7 @@ func (st *ccState) oracleLiveness(v *vio) {
 	// T5 is R5-spurious-refusal (oracleRefusal): a returned call's id is reusable at once.
 	st.oracleRefusal(v)
 	st.checkStillReading(v)
+	st.checkErrors(v)
 	// T6 Close
 	for i := range st.closeCalls {
 		c := &st.closeCalls[i]
